@@ -221,7 +221,7 @@ impl Property for C02 {
         256
     }
     fn required_counters(&self) -> Vec<&'static str> {
-        vec!["walks", "trees_with_links", "pruned_links", "shape_plain", "shape_prefixed", "shape_rooted", "shape_dots", "pruned_directories", "walk_root_expected", "base_noncanonical", "component_program_checks", "read_target_walks", "caseless_component_other_casing", "walks_from_current_directory"]
+        vec!["walks", "trees_with_links", "pruned_links", "shape_plain", "shape_prefixed", "shape_rooted", "shape_dots", "pruned_directories", "walk_root_expected", "base_noncanonical", "component_program_checks", "read_target_walks", "caseless_component_other_casing", "walks_from_current_directory", "partitioned_after_walk"]
     }
     fn decode(&self, t: &mut Tape) -> Case {
         let tree = gen_tree(t, &TreeCfg { links: true, non_utf8: true, ..TreeCfg::default() });
@@ -635,6 +635,39 @@ impl Property for C02 {
                     "glob `{}` walked from base {:?} = {:?} (shape {:?}): missing {:?}, unexpected {:?}, duplicated {:?} (expected {} entries, got {})",
                     text, case.base, base_given, case.shape, missing, extra, dup, expected.len(), actual.len()
                 ));
+            }
+        }
+        // a later call on the value that has walked: partitioned now, the postfix walked from
+        // base + prefix must yield the same entries (whatever the first walk left in the glob)
+        if actual == expected && !case.follow && matches!(case.shape, Shape::Prefixed(..) | Shape::Plain) && !text.contains("(?") {
+            if let Ok((pre, Some(post))) = guard(|| glob.clone().partition()) {
+                let start = base_given.join(&pre);
+                if !pre.as_os_str().is_empty() && std::fs::symlink_metadata(&start).map(|m| m.is_dir()).unwrap_or(false) {
+                    let start_n = norm(&start);
+                    let again = guard(|| drain(post.walk(start.clone()), 10 * total + 100));
+                    if let Ok((seen2, false)) = again {
+                        st.count("partitioned_after_walk");
+                        st.eval(1);
+                        let mut second: BTreeMap<String, usize> = BTreeMap::new();
+                        for it in &seen2 {
+                            if let Seen::Ok { path, .. } = it {
+                                if *path != start_n {
+                                    *second.entry(path.clone()).or_insert(0) += 1;
+                                }
+                            }
+                        }
+                        let mut first = actual.clone();
+                        first.remove(&start_n);
+                        if first != second {
+                            let missing: Vec<&String> = first.keys().filter(|k| !second.contains_key(*k)).collect();
+                            let extra: Vec<&String> = second.keys().filter(|k| !first.contains_key(*k)).collect();
+                            return Err(format!(
+                                "glob `{}` walked from {:?}, then partitioned into ({:?}, `{}`): the postfix walked from {:?} yields other entries than the glob did — missing {:?}, unexpected {:?}",
+                                text, base_given, pre, post, start, missing, extra
+                            ));
+                        }
+                    }
+                }
             }
         }
         // pruning statistics + pure-path component program sub-check
